@@ -556,11 +556,7 @@ func reportCmd(args []string) error {
 					}
 				}
 			case js:
-				if stdout == "" {
-					outS = "empty"
-				} else {
-					outS = "nonempty"
-				}
+				outS = "unconstrained" // --json on a run in which a command fails: no property says what standard output holds
 			default:
 				var ms []string
 				if all := taskMsgRe.FindAllStringSubmatch(stdout, -1); len(all) > 0 {
